@@ -571,7 +571,7 @@ func BuildPool(e *Eco, r *RNG, n int, extra []string) (*Pool, []string) {
 			}
 			nDec++
 		}
-		if tries%8 == 3 && nClust < 1+n/7 {
+		if tries%4 == 3 && nClust < 1+n/6 {
 			for _, t := range boundaryVariants(r, s, 3, clust0+nClust) {
 				add(t)
 			}
